@@ -156,11 +156,23 @@ def rules(ctx: Ctx) -> None:
                    f"emitted parent id `{u(idv)}` and the nodes' parent reference are the same field {field_!r} of the same entry, for every entry")
     # nodes and edges are both returned
     rets = [n for n in prog.walk_fn(ser) if isinstance(n, ast.Return) and n.value is not None]
-    ok_ret = len(rets) == 1 and {x.id for x in ast.walk(rets[0].value) if isinstance(x, ast.Name)} >= {"nodes", "edges"}
+    def _holder_names(comp_nodes):
+        out = set()
+        for c in comp_nodes:
+            st = prog.enclosing_stmt(c)
+            if isinstance(st, (ast.Assign, ast.AnnAssign, ast.AugAssign)):
+                tg = st.targets if isinstance(st, ast.Assign) else [st.target]
+                out |= {t.id for t in tg if isinstance(t, ast.Name)}
+        return out
+
+    node_names = _holder_names([c for c, _, _ in node_comps])
+    edge_names = _holder_names([c for c, _ in edge_comps])
+    ret_names = {x.id for x in ast.walk(rets[0].value) if isinstance(x, ast.Name)} if len(rets) == 1 else set()
+    ok_ret = len(rets) == 1 and bool(node_names & ret_names) and bool(edge_names & ret_names)
     ctx.ob("R18.1", "returns-nodes-and-edges", ok_ret, loc(ser.mod, rets[0]) if rets else ser.loc(), "the export is nodes + edges")
     # nodes list is only extended (never filtered / de-duplicated by dropping)
     for n in prog.walk_fn(ser):
-        if isinstance(n, ast.Assign) and any(isinstance(t, ast.Name) and t.id in ("nodes", "edges") for t in n.targets) and not isinstance(n.value, (ast.ListComp, ast.List)):
+        if isinstance(n, ast.Assign) and any(isinstance(t, ast.Name) and t.id in (node_names | edge_names) for t in n.targets) and not isinstance(n.value, (ast.ListComp, ast.List)):
             ctx.ob("R18.1", "no-post-filtering", False, loc(ser.mod, n), f"`{u(n)[:70]}` rewrites the exported list after it was built")
 
     # ---- R18.2 identity rule I3 -------------------------------------------------------------
